@@ -78,7 +78,8 @@ Common == {"grad_is_derivative",          \* stored gradient = d/dz of the dual 
            "scaling_symmetric", "scaling_positive_definite",
            "scaling_secant_or_fallback",  \* Hs z = s and Hs z~ = s~, or Hs = mu H
            "start_is_central",            \* unit_initialization: s = -g*(z)
-           "start_mu_is_one"}             \* ... and <s, z> / nu = 1
+           "start_mu_is_one",             \* ... and <s, z> / nu = 1 with the nu the cone reports
+           "degree_is_barrier_parameter"} \* nu = 3 (exponential, power), number of exponents + 1 (generalised power)
 Required(cone) == IF cone = "GenPow" THEN Common \cup {"no_third_order", "genpow_uses_dual_scaling"}
                   ELSE Common \cup {"third_order"}   \* eta = 1/2 D^3 f*(z)[dz, H^-1 ds]
 
